@@ -20,7 +20,7 @@ namespace XotModel
 
 /-! ### `unresolved_namespaces` on a static tree -/
 
-def exceptIsError {ε α : Type} : Except ε α → Bool
+def fcIsError {ε α : Type} : Except ε α → Bool
   | .ok _ => false
   | .error _ => true
 
@@ -29,9 +29,9 @@ def exceptIsError {ε α : Type} : Except ε α → Bool
     `element_prefix(name).is_err()` / `attribute_prefix(name).is_err()` — names in no namespace
     and in the XML namespace always can, an attribute name needs a non-empty prefix. -/
 def unresolvedHere (env : Env) (s : FStack) (name : Nat) (attrNames : List Nat) : List Nat :=
-  (if exceptIsError (s.elementPrefix env name) then [env.nsOfName name] else []) ++
+  (if fcIsError (s.elementPrefix env name) then [env.nsOfName name] else []) ++
   attrNames.filterMap (fun a =>
-    if exceptIsError (s.attributePrefix env a) then some (env.nsOfName a) else none)
+    if fcIsError (s.attributePrefix env a) then some (env.nsOfName a) else none)
 
 mutual
   /-- `unresolved_namespaces(node)`: `traverse` (edges of attribute / namespace nodes are filtered
@@ -49,6 +49,33 @@ mutual
   def unresolvedList (env : Env) (s : FStack) : List Tree → List Nat
     | [] => []
     | k :: ks => unresolvedTree env s k ++ unresolvedList env s ks
+end
+
+/-! ### Does `to_string(node)` succeed? (output/xml_serializer.rs `render_output`) -/
+
+def fcIsOk {ε α : Type} : Except ε α → Bool
+  | .ok _ => true
+  | .error _ => false
+
+mutual
+  /-- The two ways `to_string` fails on a tree: `MissingPrefix` from `element_fullname` (start
+      tag, and again on the end tag with the same stack) / `attribute_fullname`, and
+      `NamespaceInProcessingInstruction`.  `StartTagOpen` pushes the element's declarations,
+      `EndTag` pops them; text, comments, declarations never fail. -/
+  def writableTree (env : Env) (s : FStack) : Tree → Bool
+    | .node v ks =>
+      match v with
+      | .element name =>
+        let t := Tree.node v ks
+        let s' := s.push t.nsDecls
+        fcIsOk (s'.elementFullname env name) &&
+          (t.attrs.map (·.1)).all (fun a => fcIsOk (s'.attributeFullname env a)) &&
+          writableList env s' ks
+      | .pi target _ => (env.namespaceStr (env.nsOfName target)).isEmpty && writableList env s ks
+      | _ => writableList env s ks
+  def writableList (env : Env) (s : FStack) : List Tree → Bool
+    | [] => true
+    | k :: ks => writableTree env s k && writableList env s ks
 end
 
 namespace Forest
@@ -76,6 +103,13 @@ def inheritedPrefixes (env : Env) (f : Forest) (h : Nat) : List (Nat × Nat) :=
     | none => []
   let unresolved := f.unresolvedNamespaces env h
   prefixes.filter (fun pn => unresolved.contains pn.2)
+
+/-- `to_string(node).is_ok()`: `XmlSerializer::new` starts the name stack from
+    `namespaces_in_scope(node)`. -/
+def serialises (env : Env) (f : Forest) (h : Nat) : Bool :=
+  match f.get? h with
+  | some t => writableTree env (FStack.new (f.prefixesInScope h)) t.erase
+  | none => false
 
 /-- The loop of `clone_with_prefixes` over the inherited prefixes, in the iteration order `order`:
     `if namespaces.contains_key(prefix) { continue }; namespaces.insert(prefix, ns)`. -/
